@@ -21,13 +21,6 @@ pub proof fn lemma_lits()
     assert("/"@ =~= seq!['/']); assert("@"@ =~= seq!['@']); assert("#"@ =~= seq!['#']);
 }
 
-pub proof fn lemma_single_excludes(c: char, x: char)
-    requires c != x
-    ensures !has_char(seq![c], x)
-{
-    if has_char(seq![c], x) { let i = choose|i: int| 0 <= i < seq![c].len() && seq![c][i] == x; }
-}
-
 pub proof fn lemma_type_excludes(ty: Seq<char>, x: char)
     requires valid_type(ty), x == '#' || x == '?' || x == '@' || x == '/'
     ensures !has_char(ty, x), ty.len() > 0, ty[0] != '/'
